@@ -82,6 +82,7 @@ type bNode struct {
 	heap     uint64
 	down     atomic.Bool
 	inflight sync.WaitGroup // handlers in progress; http.Server.Shutdown waits for them in production
+	admitMu  sync.Mutex     // a listener either accepts a connection or has been closed: admission and closing exclude each other
 	heapOnce atomic.Uint64 // one-shot simulated heap reading (race mode: set without a lock)
 }
 
@@ -313,6 +314,17 @@ func (n *bNode) startNode() error {
 
 func (n *bNode) isUp() bool { return !n.down.Load() }
 
+// admit registers a handler in progress unless the listeners have closed.
+func (n *bNode) admit() bool {
+	n.admitMu.Lock()
+	defer n.admitMu.Unlock()
+	if n.down.Load() {
+		return false
+	}
+	n.inflight.Add(1)
+	return true
+}
+
 // noteBuffered records which traces sit in the collector's buffer (or whether
 // spans sit in its queues) right now; used to tell where a span lost at
 // shutdown was when the shutdown happened.
@@ -366,7 +378,9 @@ func (n *bNode) shutdown() {
 	// startstop stops the routers first (the listeners close): from here on
 	// the node is unreachable for clients and peers
 	n.running = false
+	n.admitMu.Lock()
 	n.down.Store(true)
+	n.admitMu.Unlock()
 	n.inflight.Wait() // what http.Server.Shutdown does for requests in progress
 	if !n.w.stateless {
 		n.noteBuffered()
@@ -389,6 +403,10 @@ func decodeBatch(body []byte) ([]map[string]any, error) {
 func (w *worldB) honeycomb(rec *NetRec, req *http.Request) *SimResp {
 	from := req.Header.Get("X-Sim-From")
 	switch {
+	case strings.HasPrefix(rec.Path, "/1/auth") && w.stateless:
+		// race runs: answers after a while (a handler stays in progress meanwhile)
+		b, _ := json.Marshal(map[string]any{"id": "keyid1", "team": map[string]string{"slug": "t"}, "environment": map[string]string{"slug": "env1", "name": "env1"}, "api_key_access": map[string]bool{"events": true}})
+		return &SimResp{Status: 200, Header: http.Header{"Content-Type": {"application/json"}}, Body: b, Delay: 120 * time.Millisecond}
 	case strings.HasPrefix(rec.Path, "/1/auth"):
 		mode := "ok"
 		if !w.stateless {
@@ -502,7 +520,12 @@ func (n *bNode) servePeer(rec *NetRec, req *http.Request) *SimResp {
 	hreq.Header.Del("X-Sim-From")
 	hreq.RemoteAddr = from + ":1"
 	rw := newRespRec()
-	n.inflight.Add(1)
+	if !n.admit() {
+		if !w.stateless {
+			w.out.Fault("peer_unreachable")
+		}
+		return &SimResp{ConnErr: true}
+	}
 	if !n.isUp() {
 		n.inflight.Done()
 		return &SimResp{ConnErr: true}
@@ -704,7 +727,11 @@ func (w *worldB) send(r *bRequest) {
 	if r.peer {
 		h = n.app.PeerRouter.VerifHandler()
 	}
-	n.inflight.Add(1)
+	if !n.admit() {
+		r.resp.WriteHeader(503)
+		r.finished = true
+		return
+	}
 	go func() {
 		h.ServeHTTP(r.resp, req)
 		n.inflight.Done()
